@@ -176,12 +176,14 @@ _LOADB_ASSUME = ['unit loadb: FactSet::insert / RuleSet::insert add exactly the 
                  'unit loadb / build_inner: the statement `blocks = Some(token.blocks().enumerate().map(.. load_and_translate_block ..).collect()?)` is an oracle (rule A5): one decoded block per container block plus the authority, key map only read, '
                  'nothing stored under the authorizer origin; PublicKeys::insert returns the index of the first equal key and appends when absent; HashMap entry().or_default().push() appends to the list under the key; Biscuit::block_count = 1 + container blocks (token invariant rep(), unit token)']
 PROPS['C03'] = {
-    'units': [{'template': 'origin.rs', 'rlimit': 30, 'items': [r'^datalog::origin::']}, _LOADB],
+    'units': [{'template': 'origin.rs', 'rlimit': 30, 'items': [r'^datalog::origin::']}, _LOADB,
+              {'template': 'engine.rs', 'rlimit': 30, 'items': [r'^datalog::World::run_with_limits$']}],
     'proved': 'TrustedOrigins::from_scopes returns, for all scope lists, block indices and key maps, exactly the set trusted_spec of the Biscuit scoping rules '
               '(membership predicate); TrustedOrigins::default = {authority, authorizer}; contains = subset test. Lemmas over the specification: L1 default trust of block i is exactly '
               '{0, i, authorizer}; L2 (attenuation) a later block j is never in the trusted set of anything loaded from block i <= j or from the authorizer unless a scope of the rule or of '
               'its block names a key under which j is registered; L3 previous = {0..=i} + authorizer; L4 a key scope adds exactly the blocks registered under it; L5 visibility is monotone '
-              'in the scope and antitone in the fact origin.' + _LOADB_PROVED,
+              'in the scope and antitone in the fact origin.' + _LOADB_PROVED + ' The fixpoint loop (World::run_with_limits, unit engine, Rule::apply as an oracle): on Ok the fact set is closed under one more application of every stored rule under '
+              'its own trusted set, no derived fact is dropped and facts are never removed.',
     'not_covered': ['the other half of C03: derived-fact origin = union of matched origins + rule block (Rule::apply / CombineIt::next) and the filtering of facts by contains() before matching '
                     '(FactSet::iterator) live in Box<dyn Iterator> + closure code neither verifier ingests; the end-to-end implication "extended token authorized => original authorized" is NOT proved',
                     'construction of public_key_to_block_id (HashMap::entry code in AuthorizerBuilder)'],
@@ -192,7 +194,7 @@ PROPS['C03'] = {
 PROPS['C04'] = {
     'units': [{'template': 'origin.rs', 'rlimit': 30, 'items': [r'^datalog::origin::']},
               {'template': 'authz.rs', 'rlimit': 60, 'items': [r'^token::authorizer::Authorizer::(authorize_inner|query_inner|query_all_inner)$']},
-              {'template': 'engine.rs', 'rlimit': 30, 'items': [r'^datalog::(Rule::(find_match|check_match_all)|World::(query_match|query_match_all))$']}, _LOADB],
+              {'template': 'engine.rs', 'rlimit': 30, 'items': [r'^datalog::(Rule::(find_match|check_match_all)|World::(query_match|query_match_all|run_with_limits))$']}, _LOADB],
     'proved': 'scope -> trusted origins: from_scopes equals trusted_spec for all inputs (authority, own block and authorizer by default; changed only by `trusting authority`, `previous` or a public key), '
               'contains is the subset test deciding fact visibility. Decision composition (Authorizer::authorize_inner, for EVERY outcome of the engine oracles): every query is evaluated under exactly the specification '
               'trusted set of its position (authorizer checks and policies: authorizer scopes, origin authorizer; authority checks: block 0; checks of block b: block b); on Ok(i) every authorizer, authority and block check '
@@ -201,7 +203,10 @@ PROPS['C04'] = {
               'table is modified. Queries: query_inner evaluates the rule from the authorizer origin under trusted_spec(rule scopes, {authority, authorizer}) - never the authorizer-level scopes - and query_all_inner under the token-level set '
               '(all blocks) when the rule has no scope and under its own scopes otherwise; both leave everything but the symbol table unchanged. Engine entry points (unit engine, relative to oracles for the join iterator, Rule::apply and expression evaluation): World::query_match / query_match_all hand their arguments unchanged to '
               'Rule::find_match / check_match_all; find_match is Ok(true) iff the rule application yields a first item that is a fact, Ok(false) iff it yields nothing, and the expression error otherwise; check_match_all is Ok(true) iff the body '
-              'has AT LEAST ONE match and every match satisfies every expression (evaluated in order, each match with a fresh temporary symbol table), Ok(false) at the first false expression, InvalidType for a non-boolean one.' + _LOADB_PROVED,
+              'has AT LEAST ONE match and every match satisfies every expression (evaluated in order, each match with a fresh temporary symbol table), Ok(false) at the first false expression, InvalidType for a non-boolean one. '
+              'The fixpoint loop (World::run_with_limits, the real nested loops over the rule store; Rule::apply is an oracle): on Ok the fact set is CLOSED under one more round - every item that the application of any rule of the store, '
+              'under its own trusted set and from its own block, yields over the final fact set is a fact that is already in the set, and none is an expression error (a round that adds nothing is detected by the fact count, '
+              'cardinality lemma); facts are never removed; the rule store and the extern functions are untouched.' + _LOADB_PROVED,
     'not_covered': ['the join (CombineIt) and Rule::apply (closures over it): oracles; how the oracles m_one / m_all of unit authz relate to the oracles of unit engine is by name only (both describe World::query_match*)', 'the exact list and order of the failed checks in the error value',
                     'builder -> Datalog conversion and symbol interning (oracles: the Datalog object is a function of the builder object)', 'query / query_all: the prologue (run, remaining budget) and the conversion of derived facts to the caller type (iterator chains: oracle, rule A5)'],
     'assumptions': _ORIGIN_TRUST + _LOADB_ASSUME + ['World::query_match / query_match_all return what the oracles m_one / m_all say for (query, origin, trusted set); Check::convert / Rule::convert / scope conversion are functions of their argument',
